@@ -208,6 +208,94 @@ func runConfigs(c *fw.Ctx, idx int, count bool) {
 	c.End(compared >= 3, src)
 }
 
+// ---------- (1b) the registry grows while captured locals are live ----------
+
+// growthProgram: a local of the main chunk (or of a coroutine body) is captured by closures and is read and written
+// through them and by its owner before, while and after the register file is made to grow (deep non-tail
+// recursion with several locals per frame, a call with hundreds of arguments, a vararg collector). The values
+// emitted are fixed by the text: 1 -> +10 -> +100 inside, +1000 by the owner, +1 by the closure.
+func growthProgram(idx int) string {
+	r := rand.New(rand.NewSource(int64(idx)*7919 + 17))
+	var grow string
+	switch idx % 3 {
+	case 0:
+		grow = fmt.Sprintf(`local function deep(n)
+  local a, b, c, d, e, f = n, n, n, n, n, n
+  if n == 0 then bump(10) counter = counter + 100 return peek() end
+  return deep(n - 1) + (a - b) + (c - d) + (e - f)
+end
+local seen = deep(%d)`, 20+r.Intn(140))
+	case 1:
+		grow = fmt.Sprintf(`local function many(...) bump(10) counter = counter + 100 return peek() + select('#', ...) * 0 end
+local t = {} for i = 1, %d do t[i] = i end
+local seen = many(unpack(t))`, 100+r.Intn(900))
+	default:
+		grow = fmt.Sprintf(`local function collect(...) local t = {...} bump(10) counter = counter + 100 return peek() + #t * 0 end
+local function spread(n, ...) if n == 0 then return collect(...) end return (spread(n - 1, n, ...)) end
+local seen = spread(%d)`, 40+r.Intn(160))
+	}
+	body := `local counter = 0
+local log = {}
+local function bump(k) counter = counter + k log[#log + 1] = counter end
+local function peek() return counter end
+bump(1)
+` + grow + `
+counter = counter + 1000
+bump(1)
+emit(counter, seen, peek(), #log, log[1], log[2], log[3])
+`
+	if (idx/3)%2 == 1 {
+		return "local co = coroutine.wrap(function()\n" + body + "coroutine.yield(1)\nend)\nco()\n"
+	}
+	return body
+}
+
+func runGrowth(c *fw.Ctx, idx int, count bool) {
+	src := growthProgram(idx)
+	cs := Case{Kind: "growth", Index: idx, Src: src}
+	c.Begin(cs)
+	const want = "1112,111,1112,3,1,11,1112"
+	r := c.SubRand("growth", idx)
+	compared := 0
+	for k := 0; k < 10; k++ {
+		cf := randConfig(r)
+		switch k {
+		case 0:
+			cf.opts.RegistrySize, cf.opts.RegistryMaxSize = 65536, 0 // never grows
+		case 1, 2, 3:
+			cf.opts.RegistrySize, cf.opts.RegistryMaxSize = []int{128, 129, 256}[k-1], 100000 // grows, far below its maximum
+		}
+		cf.opts.CallStackSize = 1024
+		got := lrun.RunImpl(src, cf.lrunConfig())
+		if count {
+			c.Count("growth_config_runs", 1)
+		}
+		if got.GoPanic != "" || got.RTFault != "" {
+			cs.Cfg, cs.Diff = cf.String(), got.GoPanic+got.RTFault
+			c.Violation("configuration "+cf.String()+": "+cs.Diff, cs)
+			c.End(false, "")
+			return
+		}
+		if limitText(got.ErrText) {
+			if count {
+				c.Count("growth_configs_excluded_program_meets_a_limit", 1)
+			}
+			continue
+		}
+		if got.Failed || len(got.Trace) != 1 || got.Trace[0] != want {
+			cs.Cfg, cs.Diff = cf.String(), fmt.Sprintf("trace %v error %q, the text determines %s", got.Trace, fw.Short(got.ErrText, 120), want)
+			c.Violation("a captured local read and written across a growth of the register file: under "+cf.String()+": "+cs.Diff, cs)
+			c.End(false, "")
+			return
+		}
+		if count && cf.opts.RegistryMaxSize > cf.opts.RegistrySize && cf.opts.RegistrySize < 1000 {
+			c.Count("growth_runs_on_a_small_growable_registry", 1)
+		}
+		compared++
+	}
+	c.End(compared >= 3, src)
+}
+
 // ---------- (2) limits ----------
 
 const fResumeArgs = "C12-resume-arguments-overflow-coroutine-registry"
@@ -869,6 +957,11 @@ func run(c *fw.Ctx) {
 			runConfigs(c, i, true)
 		}
 	}
+	for i := 0; i < c.Pick(96, 3000); i++ {
+		if c.Mine(i) {
+			runGrowth(c, i, true)
+		}
+	}
 	n2 := c.Pick(200, 3000)
 	for i := 0; i < n2; i++ {
 		if c.Mine(i) {
@@ -894,6 +987,8 @@ func replay(c *fw.Ctx, raw json.RawMessage) {
 		runConfigs(c, cs.Index, false)
 	case "limit":
 		runLimits(c, cs.Index, false)
+	case "growth":
+		runGrowth(c, cs.Index, false)
 	default:
 		runComponent(c, cs.Index, false, &cs)
 	}
